@@ -7,6 +7,7 @@ CONSTANTS
   FixAbsent = FALSE
   FixEqWrite = FALSE
   FixTopLevel = FALSE
+  FixVerifyRegs = FALSE
   SharedKeys = FALSE
   Vals = {0, 2}
   MaxOps = 5
